@@ -7,13 +7,15 @@ import lib
 
 MANIFEST = {
  "category": "proof",
- "text": "Coq theorems over ALL operation histories (induction on the op list, no bound) of a Gallina model that mirrors the locked bodies of ResourceSemaphore one method = one atomic step: C12_reserved_le_max (the amounts held by granted-and-not-released requests sum to reserved, Release never panics, the sum is within [0, limit]), C12_grant_fifo (grant history = prefix of the request history, the rest is the queue), C12_head_blocked_inv (no lost wake-up: after any interleaving of acquire / release / growing or shrinking availability updates the queue is empty or its head does not fit), C12_acquire_outcome / C12_acquire_error_iff, C12_sysreqs_clamped (every amount Enqueue derives from GetSystemReqs for any request - fractional, zero, negative adaptive, above the limit - lies within the limit of its semaphore, so it is never refused), C12_maxjobs_card_le_limit (the running set of the max-jobs semaphore never exceeds --maxjobs, one slot per metadata object), and the liveness results C12_local_jobs_progress / C12_local_jobs_terminate for jobs that take the semaphores in the fixed order cores, memory, vmem, processes and release them in reverse (deadlock freedom + a decreasing measure: every schedule finishes). The model is tied to /repo on every run: constants and call-site inventories (unit multipliers, procsPerJob, the acquisition order inside Enqueue, the single UpdateSize call site) are regenerated from the Go AST; the real ResourceSemaphore / MaxJobsSemaphore / GetSystemReqs / LocalJobManager.Enqueue are driven with seeded random op sequences (each blocking Acquire on its own goroutine, quiescence after every op) and compared with the extracted model and with a kernel vm_compute sample; the property is read directly on the implementation as the search for a failing input.",
+ "text": "Coq theorems over ALL operation histories (induction on the op list, no bound) of a Gallina model that mirrors the locked bodies of ResourceSemaphore one method = one atomic step: C12_reserved_le_max (the amounts held by granted-and-not-released requests sum to reserved, Release never panics, the sum is within [0, limit]), C12_grant_fifo (grant history = prefix of the request history, the rest is the queue), C12_head_blocked_inv (no lost wake-up: after any interleaving of acquire / release / growing or shrinking availability updates the queue is empty or its head does not fit), C12_acquire_outcome / C12_acquire_error_iff, C12_sysreqs_clamped (every amount Enqueue derives from GetSystemReqs for any request - fractional, zero, negative adaptive, above the limit - lies within the limit of its semaphore, so it is never refused), C12_maxjobs_card_le_limit (the running set of the max-jobs semaphore never exceeds --maxjobs, one slot per metadata object), and the liveness results C12_local_jobs_progress / C12_local_jobs_terminate for jobs that take the semaphores in the fixed order cores, memory, vmem, processes and release them in reverse (deadlock freedom + a decreasing measure: every schedule finishes). The model is tied to /repo on every run: constants and call-site inventories (unit multipliers, procsPerJob, the acquisition order inside Enqueue, the single UpdateSize call site) are regenerated from the Go AST; the real ResourceSemaphore / MaxJobsSemaphore / GetSystemReqs / LocalJobManager.Enqueue are driven with seeded random op sequences (each blocking Acquire on its own goroutine, quiescence after every op) and compared with the extracted model and with a kernel vm_compute sample; the property is read directly on the implementation as the search for a failing input. Because the theorems are about atomic method calls (C12_enqueue_must_be_atomic shows on the model that the no-lost-wake-up invariant fails if Acquire's decision and its enqueue are separate critical sections), the check also lands a Release / size increase INSIDE a running Acquire through the exported Formatter callback (compared with the model's Acquire-then-operation order) and runs bounded-time contention rounds (goroutines doing acquire/release ping-pong on a tight semaphore, optionally with concurrent UpdateSize) that must all finish: these support the search for a failing schedule, the theorems stay statements about atomic steps.",
  "note": "Trusted: Coq kernel; extraction (ExtrOcamlBasic) cross-checked in-kernel on a sample; extractconsts; mutex atomicity of each Go method (one method call = one model step); int64 arithmetic modelled in Z (no overflow: generated amounts stay below 2^61). float64 conversions at the boundary of GetSystemReqs/Enqueue are not modelled: the model takes dyadic requests for which they are exact, other requests (0.07, 1e19) are covered by the implementation-side oracle only. Liveness assumes availability updates never leave curSize below a job's request (otherwise the job waits for the machine, by design). sync.Cond wake-up order of the max-jobs semaphore is not modelled (safety theorem holds for every order).",
  "technique": "Coq proof (inductive invariants over op histories; ordered-acquisition deadlock-freedom argument with a decreasing measure) + differential correspondence against the running Go semaphores + implementation-side property oracle",
 }
 
 KINDS = {"s": "ResourceSemaphore op histories", "q": "GetSystemReqs requests",
-         "m": "MaxJobsSemaphore op histories", "j": "LocalJobManager.Enqueue runs"}
+         "m": "MaxJobsSemaphore op histories", "j": "LocalJobManager.Enqueue runs",
+         "i": "operation landing inside a running Acquire (Formatter callback)",
+         "c": "concurrent acquire/release stress rounds (bounded time)"}
 
 
 def same(case, impl, model):
@@ -94,6 +96,7 @@ def check(ctx, args):
         "each ResourceSemaphore / MaxJobsSemaphore method holds its mutex for the whole body: one call = one atomic model step (Go memory model, sync.Mutex)",
         "int64 modelled as Z (no overflow), float64 request conversions not modelled (dyadic requests only; others by the implementation-side oracle)",
         "quiescence detection of the harness (queue length / bounded waits) when observing the real semaphores",
+        "concurrent kinds i/c: goroutine schedules are sampled, not enumerated (time bounds 3-4 s per round; a stall is reported when a round does not finish); they search for a schedule that breaks atomicity, they are not part of any theorem",
     ]
     ctx.assumptions = [
         "requests handed to Acquire are non-negative (proved for every amount derived by GetSystemReqs/Enqueue: C12_sysreqs_clamped)",
@@ -190,5 +193,5 @@ def check(ctx, args):
         "oracle_ok": n_ok, "oracle_fail": n_fail, "oracle_skip": n_skip,
         "exhaustive": False,
     })
-    ctx.samples = [l[:240] for l in case_lines[4:7]] + [l[:240] for k in "qmj" for l in case_lines if l.startswith(k + " ")][:6]
+    ctx.samples = [l[:240] for l in case_lines[4:7]] + [[l[:240] for l in case_lines if l.startswith(k + " ")][1] for k in "qmjic"]
     return ctx.finish("proof")
